@@ -608,6 +608,8 @@ def handoff_part(ck, cases, c08, tag="C18_handoff"):
         case = job["case"]
         if not (a.get("stored") and a.get("yaml_ok") and a.get("ok")):
             return None
+        if case["cfg"]["dry"] and case["batch"].get("type") != "local":
+            return None      # the foreground dry run would instantiate the slurm/lsf/flux adapter (C15's business; flux is absent)
         root2 = os.path.join(job["dir"], "cli")
         # --dry launches even with -n (detached); a dry run is therefore done in the foreground: the study
         # is stored before it starts, and that stored study is what the fresh process loads
